@@ -260,6 +260,12 @@ def run_osfault(case, chooser):
         if unpriv:
             if os.geteuid() != 0:
                 return {"problems": [], "faulted": False}
+            try:
+                os.seteuid(65534)
+                os.seteuid(0)
+            except OSError:
+                # (no such user id in this name space: the case cannot be set up here)
+                return {"problems": [], "faulted": False}
             (rig.base / "secret").mkdir()
             (rig.base / "secret" / "a").write_bytes(b"a")
             os.chmod(rig.base / "secret", 0)
